@@ -17,22 +17,45 @@ def delivered : Rng → Nat
   | .chunk b :: rest => b.length + delivered rest
   | .chunkErr b :: _ => b.length
 
+theorem readFull_short (need : Nat) (rng : Rng) (acc : Bytes) (h : delivered rng < need) :
+    readFull need rng acc = none := by
+  induction rng generalizing need acc with
+  | nil =>
+    cases need with
+    | zero => simp [delivered] at h
+    | succ n => rfl
+  | cons step rest ih =>
+    cases need with
+    | zero => exact absurd h (Nat.not_lt_zero _)
+    | succ n =>
+      cases step with
+      | fail => rfl
+      | chunk b =>
+        simp only [delivered] at h
+        simp only [readFull]
+        rw [if_neg (by omega)]
+        exact ih _ _ (by omega)
+      | chunkErr b =>
+        simp only [delivered] at h
+        simp only [readFull]
+        rw [if_neg (by omega)]
+
 /-- **Failure is reported.** A source that fails or runs dry after delivering fewer than
 32 bytes — in any chunking, with the error arriving together with or after the last
 bytes — makes the seed draw fail … -/
 theorem short_source_fails (rng : Rng) (h : delivered rng < 32) : drawSeed rng = none := by
-  sorry
+  exact readFull_short 32 rng [] h
 
 /-- … and then building returns the entropy error: no token, no panic. -/
 theorem build_reports_entropy_failure (S : SigScheme) (rootSeed : Bytes) (id : Option Nat) (block : Bytes)
     (rng : Rng) (h : delivered rng < 32) : buildEnvelope S rootSeed id block rng = .error .entropy := by
-  sorry
+  simp [buildEnvelope, short_source_fails rng h]
 
 /-- Likewise attenuation. -/
 theorem append_reports_entropy_failure (S : SigScheme) (e : BiscuitMsg) (sk : Bytes) (hp : e.proof = .nextSecret sk)
     (hl : sk.length = 32) (block : Bytes) (rng : Rng) (h : delivered rng < 32) :
     appendEnvelope S e block rng = .error .entropy := by
-  sorry
+  simp [appendEnvelope, appendEnvelopeWith, hp, hl, short_source_fails rng h]
 
 /-- A source that delivers at least 32 bytes before failing yields exactly its first 32 bytes. -/
 def firstBytes : Rng → Bytes
@@ -41,9 +64,61 @@ def firstBytes : Rng → Bytes
   | .chunk b :: rest => b ++ firstBytes rest
   | .chunkErr b :: _ => b
 
+theorem readFull_enough (need : Nat) (rng : Rng) (acc : Bytes) (h : delivered rng ≥ need) :
+    ∃ rng', readFull need rng acc = some (acc ++ (firstBytes rng).take need, rng') := by
+  induction rng generalizing need acc with
+  | nil =>
+    cases need with
+    | zero => exact ⟨[], by simp [readFull]⟩
+    | succ n => simp [delivered] at h
+  | cons step rest ih =>
+    cases need with
+    | zero => exact ⟨step :: rest, by simp [readFull]⟩
+    | succ n =>
+      cases step with
+      | fail => simp [delivered] at h
+      | chunk b =>
+        simp only [delivered] at h
+        simp only [readFull, firstBytes]
+        by_cases hb : b.length ≥ n + 1
+        · rw [if_pos hb]
+          exact ⟨_, by rw [List.take_append_of_le_length hb]⟩
+        · rw [if_neg hb]
+          obtain ⟨rng', h'⟩ := ih (n + 1 - b.length) (acc ++ b) (by omega)
+          refine ⟨rng', ?_⟩
+          rw [h', List.take_append, show List.take (n + 1) b = b from List.take_of_length_le (by omega),
+            List.append_assoc]
+      | chunkErr b =>
+        simp only [delivered] at h
+        simp only [readFull, firstBytes]
+        rw [if_pos h]
+        exact ⟨_, rfl⟩
+
+theorem firstBytes_length (rng : Rng) : (firstBytes rng).length = delivered rng := by
+  induction rng with
+  | nil => rfl
+  | cons step rest ih =>
+    cases step with
+    | fail => rfl
+    | chunk b => simp [firstBytes, delivered, ih]
+    | chunkErr b => simp [firstBytes, delivered]
+
+/-- A successful draw is the first 32 delivered bytes. -/
+theorem drawSeed_some (rng rng' : Rng) (seed : Bytes) (h : drawSeed rng = some (seed, rng')) :
+    seed = (firstBytes rng).take 32 ∧ ((firstBytes rng).take 32).length = 32 := by
+  unfold drawSeed at h
+  by_cases hd : delivered rng < 32
+  · rw [readFull_short 32 rng [] hd] at h; cases h
+  · obtain ⟨r, hr⟩ := readFull_enough 32 rng [] (by omega)
+    rw [hr] at h
+    simp only [List.nil_append, Option.some.injEq, Prod.mk.injEq] at h
+    refine ⟨h.1.symm, ?_⟩
+    rw [List.length_take, firstBytes_length]; omega
+
 theorem enough_source_succeeds (rng : Rng) (h : delivered rng ≥ 32) :
     ∃ rng', drawSeed rng = some ((firstBytes rng).take 32, rng') := by
-  sorry
+  obtain ⟨rng', h'⟩ := readFull_enough 32 rng [] h
+  exact ⟨rng', by simpa [drawSeed] using h'⟩
 
 /-- **Key from delivered bytes.** Whenever a token is returned, its next secret is the 32
 bytes the source actually delivered and the announced next key is derived from them. -/
@@ -52,20 +127,24 @@ theorem build_key_from_delivered (S : SigScheme) (rootSeed : Bytes) (id : Option
     e.proof = .nextSecret ((firstBytes rng).take 32) ∧
     e.authority.nextKey.key = S.pub ((firstBytes rng).take 32) ∧
     ((firstBytes rng).take 32).length = 32 := by
-  sorry
+  obtain ⟨seed, hd, rfl⟩ := buildEnvelope_ok S rootSeed id block rng rng' e h
+  obtain ⟨rfl, hl⟩ := drawSeed_some rng rng' seed hd
+  exact ⟨rfl, rfl, hl⟩
 
 theorem append_key_from_delivered (S : SigScheme) (e e' : BiscuitMsg) (block : Bytes) (rng rng' : Rng)
     (h : appendEnvelope S e block rng = .ok (e', rng')) :
     e'.proof = .nextSecret ((firstBytes rng).take 32) ∧
     (∃ sb, e'.blocks = e.blocks ++ [sb] ∧ sb.nextKey.key = S.pub ((firstBytes rng).take 32)) := by
-  sorry
+  obtain ⟨sk, seed, _, _, hd, rfl⟩ := appendEnvelopeWith_ok true S e block rng rng' e' h
+  obtain ⟨rfl, _⟩ := drawSeed_some rng rng' seed hd
+  exact ⟨rfl, _, rfl, rfl⟩
 
 /-! Sealing draws no randomness at all: `sealEnvelope` does not take a random source. -/
 
 /-- Exactly 32 bytes are consumed per operation: what remains of a chunked script. -/
 theorem draw_consumes_32 (b : Bytes) (rest : Rng) (h : b.length ≥ 32) :
     drawSeed (.chunk b :: rest) = some (b.take 32, .chunk (b.drop 32) :: rest) := by
-  sorry
+  simp [drawSeed, readFull, h]
 
 /-- D14, pinned: the two `GenerateKey` call sites discarded the error, so a short source
 yielded a nil key whose `Seed()` panics. The pinned outcome as a function of the script: -/
@@ -75,7 +154,7 @@ def pinnedBuildOutcome (rng : Rng) : Outcome Unit :=
   | some _ => .ok ()
 
 theorem pinned_short_source_panics : pinnedBuildOutcome [.chunk [1, 2, 3, 4, 5]] = .panic .nilKeySeed := by
-  sorry
+  rfl
 
 /-! Non-vacuity: 32 bytes delivered in three chunks, the last together with an error. -/
 example : drawSeed [.chunk (List.replicate 10 7), .chunk [], .chunk (List.replicate 12 8), .chunkErr (List.replicate 10 9)]
